@@ -13,7 +13,7 @@ pub const LEXEMES: &[&str] = &[
     "(", ")", "[", "]", "{", "}", "=", "#", "<", "<=", ">", ">=", ":=", ":", ",", ";", "+", "-",
     "*", "/", // symbols
     "if", "else", "while", "array", "of", "proc", "ref", "type", "var", // keywords
-    "a", "i", "iff", "if_", "if1", "_x", "x1", "ofa", "Var", // identifiers near keywords
+    "a", "i", "iff", "if_", "if1", "_x", "x1", "X1F", "ofa", "Var", // identifiers near keywords ("0" + "X1F" is no hex literal: the prefix is a lower-case x)
     "0", "7", "2147483647", "4294967296", "00000000001", "04294967295", // decimal (the last two: leading zeros, more than ten digits)
     "0x1F", "0xab", "0xFFFFFFFF", "0x100000000", "0x", // hexadecimal (last one malformed)
     "'a'", "'\\n'", "' '", "'\\'", "'", // character literals (a backslash is an ordinary character; last one malformed)
